@@ -123,6 +123,10 @@ class RoleEval:
             if c is UNKNOWN:
                 return UNKNOWN
             return self.eval_term(t[2] if c else t[3], env)
+        if k == "cmp" and t[1] in (("not in",), ("is not",), ("!=",)) and self.role_of_term(("cmp", ({"not in": "in", "is not": "is", "!=": "=="}[t[1][0]],), t[2])) is not None:
+            # the negated spelling of a comparison that is a role in its positive spelling
+            v = self.eval_term(("cmp", ({"not in": "in", "is not": "is", "!=": "=="}[t[1][0]],), t[2]), env)
+            return UNKNOWN if v is UNKNOWN else (not v)
         if k == "cmp":
             vals = [self.eval_term(x, env) for x in t[2]]
             if any(v is UNKNOWN for v in vals):
@@ -154,6 +158,9 @@ class RoleEval:
             return res
         if k == "const":
             return t[1]
+        if k == "sub" and t[1][0] == "mapped" and t[2][0] == "index" and t[2][1] == t[1][1]:
+            # [f(v) for v in X][i] with i the position of the current element of X: f of the current element
+            return self.eval_term(t[1][2], env)
         if k == "binop" and t[1] in ("+", "-", "*", "%", "//"):
             a, b = self.eval_term(t[2], env), self.eval_term(t[3], env)
             if isinstance(a, (int, float)) and isinstance(b, (int, float)):
